@@ -1,6 +1,7 @@
 package main
 
 import (
+	"sort"
 	"bufio"
 	"fmt"
 	"io"
@@ -267,6 +268,15 @@ func BinBV(op string, a, b *Term) *Term {
 				return narrow
 			}
 			return Ite(Cmp("=", b, BVu(0, w)), atZero, narrow)
+		}
+	}
+	if op == "bvor" && w <= 64 && !a.IsConst() && !b.IsConst() {
+		if pa, ok := placed(a, 0); ok {
+			if pb, ok := placed(b, 0); ok {
+				if u, ok := disjointUnion(pa, pb); ok {
+					return assemble(u, w)
+				}
+			}
 		}
 	}
 	// light simplifications
@@ -541,6 +551,14 @@ func Extract(a *Term, hi, lo int) *Term {
 	if a.Op == "zext" && hi < a.Args[0].W {
 		return Extract(a.Args[0], hi, lo)
 	}
+	if a.Op == "bvlshr" && a.Args[1].IsConst() && a.Args[1].C.IsInt64() && int64(hi)+a.Args[1].C.Int64() < int64(a.W) {
+		// byte(x >> 8k): the bits of x themselves
+		c := int(a.Args[1].C.Int64())
+		return Extract(a.Args[0], hi+c, lo+c)
+	}
+	if a.Op == "extract" {
+		return Extract(a.Args[0], hi+a.Lo, lo+a.Lo)
+	}
 	return mk(&Term{Op: "extract", W: hi - lo + 1, Args: []*Term{a}, Hi: hi, Lo: lo})
 }
 func Concat(hi, lo *Term) *Term {
@@ -553,7 +571,107 @@ func Concat(hi, lo *Term) *Term {
 	if hi.Op == "extract" && lo.Op == "extract" && hi.Args[0] == lo.Args[0] && hi.Lo == lo.Hi+1 {
 		return Extract(hi.Args[0], hi.Hi, lo.Lo)
 	}
+	if hi.Op == "ite" && lo.Op == "ite" && hi.Args[0] == lo.Args[0] && hi.W+lo.W <= 64 {
+		// bytes of two values merged cell by cell under the same condition: re-join each side if that fuses
+		x, y := Concat(hi.Args[1], lo.Args[1]), Concat(hi.Args[2], lo.Args[2])
+		if x.Op != "concat" && y.Op != "concat" {
+			return Ite(hi.Args[0], x, y)
+		}
+	}
 	return mk(&Term{Op: "concat", W: hi.W + lo.W, Args: []*Term{hi, lo}})
+}
+
+// placed decomposes t (width w) into disjoint pieces (bit offset, term) whose "or" it is: the shape Go code produces when
+// it re-assembles a word from bytes (uint64(b0) | uint64(b1)<<8 | ...). ok=false if t does not have that shape.
+type piece struct {
+	lo int
+	t  *Term
+}
+
+func placed(t *Term, depth int) ([]piece, bool) {
+	if depth > 80 {
+		return nil, false
+	}
+	switch t.Op {
+	case "zext":
+		return []piece{{0, t.Args[0]}}, true
+	case "const":
+		if t.C.Sign() == 0 {
+			return nil, true
+		}
+	case "bvshl":
+		if t.Args[1].IsConst() && t.Args[1].C.IsInt64() && t.Args[1].C.Int64() < int64(t.W) {
+			c := int(t.Args[1].C.Int64())
+			ps, ok := placed(t.Args[0], depth+1)
+			if !ok {
+				return nil, false
+			}
+			var out []piece
+			for _, p := range ps {
+				if p.lo+c >= t.W {
+					continue
+				}
+				q := p.t
+				if p.lo+c+q.W > t.W {
+					q = Extract(q, t.W-p.lo-c-1, 0)
+				}
+				out = append(out, piece{p.lo + c, q})
+			}
+			return out, true
+		}
+	case "bvor":
+		pa, ok := placed(t.Args[0], depth+1)
+		if !ok {
+			return nil, false
+		}
+		pb, ok := placed(t.Args[1], depth+1)
+		if !ok {
+			return nil, false
+		}
+		return disjointUnion(pa, pb)
+	case "concat":
+		lo, hi := t.Args[1], t.Args[0]
+		return []piece{{0, lo}, {lo.W, hi}}, true
+	}
+	return nil, false
+}
+
+func disjointUnion(a, b []piece) ([]piece, bool) {
+	out := append(append([]piece(nil), a...), b...)
+	sort.Slice(out, func(i, j int) bool { return out[i].lo < out[j].lo })
+	for i := 1; i < len(out); i++ {
+		if out[i-1].lo+out[i-1].t.W > out[i].lo {
+			return nil, false
+		}
+	}
+	return out, true
+}
+
+// assemble builds the w-bit word whose pieces (sorted, disjoint) are ps and whose other bits are zero.
+func assemble(ps []piece, w int) *Term {
+	if len(ps) == 0 {
+		return BVu(0, w)
+	}
+	var acc *Term
+	cursor := 0
+	for _, p := range ps {
+		q := p.t
+		if p.lo > cursor {
+			z := BVu(0, p.lo-cursor)
+			if acc == nil {
+				acc = z
+			} else {
+				acc = Concat(z, acc)
+			}
+		}
+		if acc == nil {
+			acc = q
+		} else {
+			acc = Concat(q, acc)
+		}
+		cursor = p.lo + q.W
+	}
+	return ZExt(acc, w)
 }
 func ZExt(a *Term, w int) *Term {
 	if w == a.W {
